@@ -699,6 +699,10 @@ func (db *RockDB) SetRange(ts int64, rawKey []byte, offset int, value []byte) (i
 	if err != nil {
 		return 0, err
 	}
+	if keyInfo.Expired {
+		// the expired value is dead, the new value must not build on it
+		realV = nil
+	}
 
 	if realV == nil && !keyInfo.Expired {
 		db.IncrTableKeyCount(keyInfo.Table, 1, db.wb)
@@ -778,6 +782,10 @@ func (db *RockDB) Append(ts int64, rawKey []byte, value []byte) (int64, error) {
 	keyInfo, realV, err := db.prepareKVValueForWrite(ts, rawKey, false)
 	if err != nil {
 		return 0, err
+	}
+	if keyInfo.Expired {
+		// the expired value is dead, the new value must not build on it
+		realV = nil
 	}
 	if len(realV)+len(value) > MaxValueSize {
 		return 0, errValueSize
